@@ -65,7 +65,8 @@ def gen(rng, plain_tree):
     elif op == 'kill':
         a = {'sid': text(rng)}
     uris = [u for u in GATING_CAPS if rng.random() < 0.7]
-    return {'kind': 'build', 'op': op, 'args': a, 'uris': uris}
+    # profiles that write the same `nc:`-prefixed envelope and do not override these operations
+    return {'kind': 'build', 'op': op, 'args': a, 'uris': uris, 'profile': rng.choice(['default', 'default', 'iosxr', 'csr'])}
 
 
 def url_ok(u):
@@ -83,7 +84,7 @@ def run_impl(case, plain_build, plain_from_etree):
     from ncclient.xml_ import XMLError
     from lxml import etree
     a, op = case['args'], case['op']
-    m, s, dh = make_manager(profile='default', raise_mode=0, server_caps=list(case['uris']),
+    m, s, dh = make_manager(profile=case.get('profile', 'default'), raise_mode=0, server_caps=list(case['uris']),
                             responder=lambda req, mid: '<rpc-reply message-id="%s" xmlns="%s"><ok/></rpc-reply>' % (mid, BASE))
     try:
         if op == 'edit':
